@@ -148,6 +148,19 @@ let run_fn (name : string) (args : string list) : string =
        | Vp9Key b -> "ok " ^ s01 b)
   | "is_valid_vp9_frame" -> s01 (is_valid_vp9_frame (d ()))
   | "tick" -> hex_of_n (tick (decode64 (n_of_hex (List.nth args 0))))
+  | "frag_default_init" ->
+      (match fstep (fmuxer_new frag_config_default) FInit with
+       | (_, FrBytes b) -> hex_of_bytes b
+       | _ -> "unexpected")
+  | "opus_config" ->
+      (match args with
+       | [base; ps; ch] ->
+           let c = match base with "mono" -> opus_config_mono | "stereo" -> opus_config_stereo | _ -> opus_config_default in
+           let c = if ps = "~" then c else opus_with_pre_skip c (n_of_hex ps) in
+           let c = if ch = "~" then c else opus_with_channels c (n_of_hex ch) in
+           Printf.sprintf "%s %s %s %s %s %s" (hex_of_n c.oc_version) (hex_of_n c.oc_output_channel_count) (hex_of_n c.oc_pre_skip)
+             (hex_of_n c.oc_input_sample_rate) (hex_of_n c.oc_output_gain) (hex_of_n c.oc_channel_mapping_family)
+       | _ -> "bad-args")
   | "invariant_log" -> "ok 0"   (* the assertion log is not part of the model: it never influences a result *)
   | "parse_video_codec" -> opt vcodec_s (parse_video_codec (d ()))
   | "parse_audio_codec" -> opt acodec_s (parse_audio_codec (d ()))
